@@ -478,7 +478,9 @@ def run_tasks(tasks, world_need=('marginfi', 'typecrate'), jobs=None):
     ctx = mp.get_context('fork')
     global _WORLD, _TASKS
     _WORLD = world; _TASKS = tasks
-    with ctx.Pool(jobs) as pool:
+    # one fresh forked process per task: a task must never see module-level state (list bounds, memo tables, engine flags) left behind by whichever task happened to run
+    # before it in the same worker - which task that is depends on scheduling, i.e. on machine load (this made one translation validation flaky under heavy load)
+    with ctx.Pool(jobs, maxtasksperchild=1) as pool:
         for res in pool.imap_unordered(_worker, range(len(tasks))):
             out.extend(res)
     return out
